@@ -73,18 +73,18 @@ theorem mkNode_impl (k : Nat) (r : RRow) (es : List OutEdge) (hk : r.kind = .act
     rfl
 
 section
-variable (rnf : Bool) (F r : Flow) (M : Maps) (ns : Array NodeM) (j : Nat) (n : NodeM) (c : CRow) (es : List OutEdge)
-  (i' : Nat) (n' : NodeM) (rr : SwitchR)
+variable (rnf : Bool) (F r : Flow) (M : Maps) (ns : Array NodeM) (j : Nat) (n : NodeM) (c : CRow) (post : List Str)
+  (es : List OutEdge) (i' : Nat) (n' : NodeM) (rr : SwitchR)
 
-/-- an action row with conditional out-edges: the compiled action node, the compiled router node
-and the one reference node -/
-theorem impl_abs (hk : kindOf c.row.type = .action) (hp : ImplSim M ns n c es i' n' rr)
+/-- an action row with conditional out-edges: the compiled action node (with the actions merged into
+it), the compiled router node and the one reference node -/
+theorem impl_abs (hk : kindOf c.row.type = .action) (hp : ImplSim M ns n c post es i' n' rr)
     (hact : (toRRow c).act = c.row.action)
     (hv : ∀ e ∈ es.filter (fun e => !e.cond.blank), e.cond.var = implVar es)
     (hfn' : n'.fids.Nodup) :
     (absNode ⟨false, rnf⟩ r (mkNode j (toRRow c) es)).ask.isSome = true ∧
     absNode ⟨false, rnf⟩ F (renderNode n) =
-      { acts := (absNode ⟨false, rnf⟩ r (mkNode j (toRRow c) es)).acts, ask := none,
+      { acts := (absNode ⟨false, rnf⟩ r (mkNode j (toRRow c) es)).acts ++ post, ask := none,
         dests := [destIdx F (some n'.uid)] } ∧
     (absNode ⟨false, rnf⟩ F (renderNode n')).acts = [] ∧
     (absNode ⟨false, rnf⟩ F (renderNode n')).ask = (absNode ⟨false, rnf⟩ r (mkNode j (toRRow c) es)).ask ∧
@@ -113,7 +113,7 @@ theorem impl_abs (hk : kindOf c.row.type = .action) (hp : ImplSim M ns n c es i'
     · intro h; cases h
     · rintro ⟨m, hm⟩; split at hm <;> cases hm
   rw [absNode_sw rnf F n' rr hp.router' hp.acts' hcu hex hp.casecat hnrs,
-    absNode_plain_cmp _ F n c.row.action hp.router hp.acts]
+    absNode_plain_cmp' _ F n _ hp.router hp.acts]
   have hacts : (refActs j (toRRow c).act).map (·.obs) = c.row.action.toList := by
     rw [hact]; exact acts_obs j c.row.action
   refine ⟨rfl, ?_, rfl, ?_, ?_⟩
@@ -181,4 +181,123 @@ theorem impl_abs (hk : kindOf c.row.type = .action) (hp : ImplSim M ns n c es i'
       rw [List.append_nil]; exact key
 
 end
+/-! ### a `no_op` row with conditional out-edges -/
+
+theorem refTests_noop (es : List OutEdge) :
+    refTests .noOp es = (es.filter (fun e => !e.cond.blank)).map
+      (fun e => ((condTest e.cond).1, (condTest e.cond).2, tgtDest e.tgt)) := by
+  unfold refTests
+  rw [tests_noop_eq]
+  apply List.map_congr_left
+  intro e _
+  unfold refTest
+  rw [if_neg (show ¬ (Kind.noOp = Kind.splitGroup) by decide)]
+
+/-- the reference node of a `no_op` row with conditional out-edges -/
+theorem mkNode_nop (k : Nat) (r : RRow) (es : List OutEdge) (hk : r.kind = .noOp) (hact : r.act = none)
+    (hne : es.filter (fun e => !e.cond.blank) ≠ [])
+    (hv : ∀ e ∈ es.filter (fun e => !e.cond.blank), e.cond.var = implVar es) (hvne : implVar es ≠ []) :
+    mkNode k r es =
+      swNode k (mkSwitch k (implVar es) (refTests .noOp es)
+        (lastTgt (es.filter (·.cond.blank)) (fun _ => true)) none none) := by
+  have hcv := condVar_same _ _ hne hv
+  have hvemp : (implVar es).isEmpty = false := by
+    cases h : implVar es with
+    | nil => exact absurd h hvne
+    | cons _ _ => rfl
+  rw [hvemp] at hcv
+  simp only [Bool.false_eq_true, if_false] at hcv
+  have hemp : (es.filter (fun e => !e.cond.blank)).isEmpty = false := by
+    cases hf : es.filter (fun e => !e.cond.blank) with
+    | nil => exact absurd hf hne
+    | cons _ _ => rfl
+  unfold mkNode
+  simp only [hk, hact, hemp, Bool.false_eq_true, if_false, hcv, Option.getD_some]
+  rw [refTests_noop]
+  rfl
+
+/-- the reference node of a `no_op` row without conditional out-edges: a node that does nothing -/
+theorem mkNode_noop_plain (k : Nat) (r : RRow) (es : List OutEdge) (hk : r.kind = .noOp) (hact : r.act = none)
+    (hb : ∀ e ∈ es, e.cond.blank = true) :
+    mkNode k r es = plainRef k none ((es.getLast?).bind (fun e => tgtDest e.tgt)) := by
+  have h1 : es.filter (fun e => !e.cond.blank) = [] := by
+    rw [List.filter_eq_nil_iff]; intro e he; simp [hb e he]
+  have h2 : es.filter (·.cond.blank) = es := by
+    rw [List.filter_eq_self]; intro e he; exact hb e he
+  unfold mkNode plainRef
+  simp only [hk, hact, h1, h2, List.isEmpty_nil, if_true, lastTgt, List.filter_true]
+  cases es.getLast? <;> rfl
+
+/-- a `no_op` row with conditional out-edges: the compiled router node and the reference node -/
+theorem nop_abs (rnf : Bool) (F r : Flow) (M : Maps) (ns : Array NodeM) (j : Nat) (n : NodeM) (c : CRow)
+    (es : List OutEdge) (rr : SwitchR) (hk : kindOf c.row.type = .noOp) (hp : NopSim M ns n c es rr)
+    (hact : (toRRow c).act = none) (hrt : testsOf .noOp es ≠ [])
+    (hv : ∀ e ∈ es.filter (fun e => !e.cond.blank), e.cond.var = implVar es)
+    (hfn0 : n.fids.Nodup) :
+    AbsRel (DR F r M ns es) (absNode ⟨false, rnf⟩ r (mkNode j (toRRow c) es)) (absNode ⟨false, rnf⟩ F (renderNode n)) := by
+  have hne : es.filter (fun e => !e.cond.blank) ≠ [] := by rw [← tests_noop_eq]; exact hrt
+  have hop := hp.operand.2 hrt
+  have hvne : implVar es ≠ [] := by rw [← hop]; exact hp.operand.1
+  have hkr : (toRRow c).kind = .noOp := hk
+  rw [mkNode_nop j (toRRow c) es hkr hact hne hv hvne, absNode_mkSwitch]
+  have hrids : rr.ids.Nodup := by
+    unfold NodeM.fids NodeM.innerIds NodeM.tailIds at hfn0
+    rw [hp.router] at hfn0
+    exact (List.nodup_append.mp (List.nodup_append.mp hfn0).2.1).2.1
+  have hex : (rr.allCats.map (·.exitUid)).Nodup := by
+    unfold SwitchR.ids at hrids; exact (List.nodup_append.mp hrids).1
+  have hcu : (rr.allCats.map (·.uid)).Nodup := by
+    unfold SwitchR.ids at hrids
+    exact (List.nodup_append.mp (List.nodup_append.mp hrids).2.1).1
+  have hnrs : rr.noResp.isSome = true ↔ ∃ m, rr.wait = some (m + 1) := by
+    rw [hp.noResp, hp.wait]
+    constructor
+    · intro h; cases h
+    · rintro ⟨m, hm⟩; cases hm
+  rw [absNode_sw rnf F n rr hp.router hp.acts hcu hex hp.casecat hnrs]
+  refine ⟨rfl, ?_, ?_⟩
+  · simp only
+    have htests : (rr.cases.map renderCase).map (fun k => (k.type, testArgs k)) =
+        (refTests .noOp es).map (fun t => (t.1, if t.1 = "has_group".toList then t.2.1.drop 1 else t.2.1)) := by
+      have e1 : (rr.cases.map renderCase).map (fun k => (k.type, testArgs k)) =
+          (rr.cases.map (fun k => (k.type, k.args.map (·.getD [])))).map
+            (fun (p : Str × List Str) => (p.1, if p.1 = "has_group".toList then p.2.drop 1 else p.2)) := by
+        rw [List.map_map, List.map_map]
+        exact List.map_congr_left (fun k _ => rfl)
+      rw [e1, hp.cases, List.map_map]
+      unfold refTests
+      rw [List.map_map]
+      exact List.map_congr_left (fun e _ => rfl)
+    have hwait : (renderWait rr).map (fun o => o.map (·.1)) = (none : Option (Option Nat)) := by
+      unfold renderWait
+      rw [hp.wait, hp.noResp]
+      rfl
+    rw [htests, hwait, hop, hp.rname]
+    rfl
+  · simp only
+    have hno : rr.allCats = rr.cats ++ [rr.dflt] := by
+      unfold SwitchR.allCats; rw [hp.noResp]; simp
+    rw [List.append_nil, hno, List.map_append]
+    refine List.rel_append ?_ ?_
+    · unfold refTests
+      rw [List.map_map]
+      refine forall2_flip_map hp.catd ?_
+      intro cat e he hd
+      refine ⟨cat.dest, some e.tgt, hd, ?_, rfl, rfl⟩
+      intro k hk2
+      simp only [Option.some.injEq] at hk2
+      have : e ∈ es := by
+        unfold testsOf at he
+        exact (List.mem_filter.mp (List.mem_filter.mp he).1).1
+      exact ⟨e, this, hk2⟩
+    · refine List.Forall₂.cons ⟨rr.dflt.dest, _, hp.dflt, ?_, ?_, rfl⟩ List.Forall₂.nil
+      · intro k hk2
+        cases hg : (es.filter (·.cond.blank)).getLast? with
+        | none => rw [hg] at hk2; cases hk2
+        | some e =>
+          rw [hg] at hk2
+          simp only [Option.map_some, Option.some.injEq] at hk2
+          exact ⟨e, (List.mem_filter.mp (List.mem_of_getLast? hg)).1, hk2⟩
+      · rw [lastTgt_eq, List.filter_true]
+
 end Rpft.CoreSheet
